@@ -14,8 +14,10 @@ CHECKS = {
  "C08": ("Every implicit Go runtime check inside Step (index, slice, nil, type assertion, explicit panic) is a solver-decided fork from an arbitrary state; passes only if no failure path is feasible.", TRUST + "Backends of exactly 2^24 bytes make 'no failure' imply 'every access below 2^24'.", "§6 C08"),
  "C09": ("Real NewROM/ReadHeader/WriteHeader (reflection-driven walker executed for real, reflect/encoding-binary by documented contract) on a fully symbolic image: round trip, 80-byte serialisation, every field at its documented address, version rule.", TRUST + "Oracle: SNES header layout (DESIGN Appendix C). Image sizes 32 KiB..4 MiB enumerated.", "§6 C09"),
  "C10": ("Real BusReader/BusWriter and bytes.Reader on a symbolic image with a fully symbolic bus address and short read/write sequences; counts, errors, delivered bytes and the whole image compared with the contract applied to the harness' copy.", TRUST + "The unreachable last byte of each bank is a listed open finding (pinned by a baseline test).", "§6 C10"),
+ "C11": ("The real CreateEmulator executed by the engine; one read and one write at every bus address (per bank, offset symbolic) with symbolic ROM/WRAM/SRAM contents; the array reached is observed extensionally and compared with lorom.BusAddressToPak.", TRUST, "§6 C11"),
  "C12": ("Step lemma and callback obligations per opcode over an arbitrary state; the real RunUntil loop run symbolically over short programs with symbolic target and budget.", TRUST + "RunUntil for programs beyond the unrolling bound rests on the Step lemma (cycles >= 1), argued not solver-checked.", "§6 C12"),
  "C19": ("Every instruction method and data blocks at capacities from ample down to 3 bytes short, refusal observed around the real call; dry-run twin compared after every call of short sequences.", TRUST + "Capacities 0..4 (thorough 0..6).", "§6 C19"),
+ "C13": ("Probe memories behind the real Bus; routing after up to three Attach calls over overlapping/adjacent/nested ranges checked at a symbolic address; misaligned Attach with symbolic bounds; EaDump for every start/end alignment over up to 4-5 segments.", TRUST + "Bounded: 8 candidate ranges in a 512-byte window, <= 3 attaches.", "§6 C13"),
  "C15": ("Real WriteHexTo/WriteTextTo on short call sequences with symbolic operands, data and base; listings parsed arithmetically and compared with the harness' own record of what was issued.", TRUST + "Bounded: sequences of <= 2 (thorough 3) calls.", "§6 C15"),
  "C16": ("Differential run of the real code: the same call sequence fed directly and through Clone+Append, every split point; getters, text listing and Finalize outcome compared; operands, flags and base symbolic.", TRUST + "Bounded: sequences of <= 3 (thorough 4) calls, two labels.", "§6 C16"),
  "C17": ("All colour/multiplicand/divisor values symbolic; per-channel closed form in 32 bits as reference; monotonicity queries decided by cvc5 --solve-bv-as-int where bit-blasting times out.", TRUST, "§6 C17"),
